@@ -1,0 +1,14 @@
+//go:build verif
+
+// Contracts for the govc verifier (see /verif/DESIGN.md). Comment-only file: with the
+// "verif" build tag off it is not compiled; with it on it contains only the package clause.
+
+package externaltoc
+
+// containerd converts the layers of an image in parallel: the per-layer converter closure may run concurrently with
+// itself, so every write to state it shares through captured variables needs a lock.
+//@ func layerConvert$1
+//@   props C19
+//@   concurrent
+//@   requires layerConvertFunc != nil
+//@   assume after "cf := layerConvertFunc(c)" : cf != nil
